@@ -71,6 +71,7 @@ type RecvCfg struct {
 	EOFWithData bool // the last bytes arrive together with io.EOF
 	ZeroReads   bool // the reader sometimes returns (0, nil)
 	Reuse       bool // receive into one packet, ResetVT between calls (as receive.go does)
+	NoReset     bool // with Reuse: no reset between the calls (a gRPC stream resets the message itself)
 }
 
 func (c RecvCfg) String() string {
@@ -81,7 +82,9 @@ func (c RecvCfg) String() string {
 	if c.ZeroReads {
 		s += "+zeroreads"
 	}
-	if c.Reuse {
+	if c.Reuse && c.NoReset {
+		s += "+reuse-without-reset"
+	} else if c.Reuse {
 		s += "+reuse"
 	} else {
 		s += "+fresh"
@@ -308,7 +311,9 @@ func ReadBack(o Obs, stream []byte, want []*types.Packet, cfg RecvCfg, r *core.R
 		p := &types.Packet{}
 		if cfg.Reuse {
 			p = &reused
-			p.ResetVT()
+			if !cfg.NoReset {
+				p.ResetVT()
+			}
 		}
 		out := protect(func() error { return s.RecvMsg(p) })
 		if out.panicked != nil {
@@ -641,6 +646,7 @@ func RecvCfgs(r *core.Rand, streamLen int) []RecvCfg {
 	cfgs := []RecvCfg{
 		{Mode: FragWhole},
 		{Mode: FragWhole, Reuse: true},
+		{Mode: FragWhole, Reuse: true, NoReset: true},
 		{Mode: FragRandom, Reuse: r.P(1, 2)},
 		{Mode: FragRandom, Reuse: r.P(1, 2), EOFWithData: true, ZeroReads: r.P(1, 2)},
 		{Mode: FragFixed, Chunk: core.Pick(r, []int{2, 3, 4, 5, 7, 8, 1023, 4095, 4096, PoolBuf - 1, PoolBuf, PoolBuf + 1}), Reuse: r.P(1, 2), EOFWithData: r.P(1, 4)},
